@@ -47,7 +47,8 @@ Record rpc_i : Set := {
 }.
 Inductive interaction : Set := IHttp (h : http_i) | IRpc (r : rpc_i).
 
-Record tag : Set := { t_title : bytes; t_desc : option bytes; t_http : list iid; t_rpc : list iid }.
+(* t_auto: made from the path of an interaction (catalog.newPathTag); a Tags directive can name declared tags only *)
+Record tag : Set := { t_title : bytes; t_desc : option bytes; t_http : list iid; t_rpc : list iid; t_auto : bool }.
 Record server : Set := { s_annot : bytes; s_base : bytes }.
 Record utype : Set := { ut_annot : bytes; ut_notation : bytes; ut_schema : sdesc }.
 Record info : Set := { in_title : bytes; in_version : bytes; in_desc : option bytes; in_dir : directive }.
@@ -148,28 +149,34 @@ Definition auto_tag_name (path : bytes) : bytes :=
 
 Definition tag_add_iid (t : tag) (i : iid) : tag :=
   match i_proto i with
-  | PHttp => {| t_title := t_title t; t_desc := t_desc t; t_http := t_http t ++ [i]; t_rpc := t_rpc t |}
-  | PRpc => {| t_title := t_title t; t_desc := t_desc t; t_http := t_http t; t_rpc := t_rpc t ++ [i] |}
+  | PHttp => {| t_title := t_title t; t_desc := t_desc t; t_http := t_http t ++ [i]; t_rpc := t_rpc t; t_auto := t_auto t |}
+  | PRpc => {| t_title := t_title t; t_desc := t_desc t; t_http := t_http t; t_rpc := t_rpc t ++ [i]; t_auto := t_auto t |}
   end.
+
+(* tagsFromTagsDirective: the directive is well-formed and every name is a declared tag; [i] = the
+   interaction to register in each named tag (None: CheckTags, the directive is only checked) *)
+Definition tags_from_directive (td : directive) (i : option iid) (tags : list (bytes * tag))
+  : cres (list bytes * list (bytes * tag)) :=
+  if negb (beq (d_annot td) []) then kerr td "annotation is forbidden"
+  else match d_unnamed td with
+       | [] => kerr td "required parameter"
+       | names =>
+         (fix go (ns : list bytes) (acc : list bytes) (tg : list (bytes * tag)) : cres (list bytes * list (bytes * tag)) :=
+            match ns with
+            | [] => COk (acc, tg)
+            | n :: r =>
+              match om_get beq tg n with
+              | None => kerr td "tag not found"
+              | Some t => if t_auto t then kerr td "tag not found"
+                          else go r (acc ++ [n]) (match i with Some j => om_update beq tg n (fun t => tag_add_iid t j) | None => tg end)
+              end
+            end) names [] tags
+       end.
 
 (* returns the tag names of the interaction and the updated tag collection *)
 Definition tags_for (me : dtree) (anc : list dtree) (i : iid) (tags : list (bytes * tag))
   : cres (list bytes * list (bytes * tag)) :=
-  let from_tags_directive (td : directive) :=
-      if negb (beq (d_annot td) []) then kerr td "annotation is forbidden"
-      else match d_unnamed td with
-           | [] => kerr td "required parameter"
-           | names =>
-             (fix go (ns : list bytes) (acc : list bytes) (tg : list (bytes * tag)) : cres (list bytes * list (bytes * tag)) :=
-                match ns with
-                | [] => COk (acc, tg)
-                | n :: r =>
-                  match om_get beq tg n with
-                  | None => kerr td "tag not found"
-                  | Some t => go r (acc ++ [n]) (om_update beq tg n (fun t => tag_add_iid t i))
-                  end
-                end) names [] tags
-           end in
+  let from_tags_directive (td : directive) := tags_from_directive td (Some i) tags in
   match child_of_kind KTags (tree_kids me) with
   | Some td => from_tags_directive td
   | None =>
@@ -183,7 +190,7 @@ Definition tags_for (me : dtree) (anc : list dtree) (i : iid) (tags : list (byte
     | None =>
       let n := auto_tag_name (i_path i) in
       let tg := if om_has beq tags n then tags
-                else tags ++ [(n, {| t_title := pathTagTitle (i_path i); t_desc := None; t_http := []; t_rpc := [] |})] in
+                else tags ++ [(n, {| t_title := pathTagTitle (i_path i); t_desc := None; t_http := []; t_rpc := []; t_auto := true |})] in
       COk ([n], om_update beq tg n (fun t => tag_add_iid t i))
     end
   end.
@@ -461,7 +468,7 @@ Section Build.
             | Some t => match t_desc t with
                         | Some _ => kerr d "not a unique directive"
                         | None => COk (with_cat b (upd_tags c (om_update beq (c_tags c) n (fun t =>
-                                   {| t_title := t_title t; t_desc := Some text; t_http := t_http t; t_rpc := t_rpc t |}))))
+                                   {| t_title := t_title t; t_desc := Some text; t_http := t_http t; t_rpc := t_rpc t; t_auto := t_auto t |}))))
                         end
             end
           else kerr d "wrong description context"
@@ -656,6 +663,9 @@ Section Build.
                     end
         end
       end
+    else if kind_eqb k KTags then
+      (* addTags -> CheckTags: checked where it stands, whether or not a method takes its tags from it *)
+      tags_from_directive d None (c_tags c) >>=c fun _ => COk b
     else COk b.
 
   (* addDirectiveBranch: pre-order *)
@@ -683,12 +693,11 @@ Section Build.
         let n := named d (bs "TagName") in
         if beq n [] then kerr d "required parameter"
         else if om_has beq tags n then kerr d "duplicate names"
-        else collect_tags r (tags ++ [(n, {| t_title := (if beq (d_annot d) [] then n else d_annot d); t_desc := None; t_http := []; t_rpc := [] |})])
+        else collect_tags r (tags ++ [(n, {| t_title := (if beq (d_annot d) [] then n else d_annot d); t_desc := None; t_http := []; t_rpc := []; t_auto := false |})])
       else collect_tags r tags
     end.
 
-  (* collectRules over the top-level list BEFORE paste expansion: ENUM names (after the enums that
-     pastes registered) *)
+  (* collectRules over the top-level list AFTER paste expansion: ENUM names in document order *)
   Fixpoint collect_enums (ts : list dtree) (enums : list (bytes * bytes)) : cres (list (bytes * bytes)) :=
     match ts with
     | [] => COk enums
@@ -823,12 +832,27 @@ Section Build.
       end
     end.
 
+  (* collectUserTypes: a second TYPE with a name already taken is reported where it stands, before the
+     types are compiled; TYPE directives without a name are left to addType *)
+  Fixpoint check_dup_types (ts : list dtree) (seen : list bytes) : cres unit :=
+    match ts with
+    | [] => COk tt
+    | t :: r =>
+      let d := tree_dir t in
+      if kind_eqb (d_kind d) KType then
+        let n := named d (bs "Name") in
+        if beq n [] then check_dup_types r seen
+        else if existsb (beq n) seen then kerr d "duplicate names"
+        else check_dup_types r (n :: seen)
+      else check_dup_types r seen
+    end.
+
   (* compileCore (after expansion) + buildCatalog + path variables + validate.
-     [pre] = top-level list before expansion (macros removed), [post] = expanded forest,
-     [paste_enums] = enum names registered while pasting *)
-  Definition build (pre post : list dtree) (paste_enums : list (bytes * bytes)) : cres catalog :=
-    collect_enums pre paste_enums >>=c fun en =>
+     [post] = expanded forest *)
+  Definition build (post : list dtree) : cres catalog :=
+    collect_enums post [] >>=c fun en =>
     collect_tags post [] >>=c fun tg =>
+    check_dup_types post [] >>=c fun _ =>
     collect_paths_all post [] >>=c fun pvs =>
     match post with
     | first :: _ =>
